@@ -277,12 +277,46 @@ func errID(err error) string {
 
 // scriptReader follows a script; every Read is recorded as a Read event.
 type scriptReader struct {
-	script []rstep
-	pos    int
-	fill   *rng
-	after  string // behaviour when the script is exhausted: "EOF" or "data"
-	total  int
-	quiet  bool
+	script  []rstep
+	pos     int
+	fill    *rng
+	after   string // behaviour when the script is exhausted: "EOF" or "data"
+	total   int
+	quiet   bool
+	pattern string // "" = seeded random bytes; otherwise a fixed shape of output
+}
+
+func (s *scriptReader) produce(k int) []byte {
+	b := s.fill.bytes(k)
+	switch s.pattern {
+	case "zero":
+		for i := range b {
+			b[i] = 0
+		}
+	case "ones":
+		for i := range b {
+			b[i] = 0xFF
+		}
+	case "lead0":
+		if s.total == 0 && k > 0 {
+			b[0] = 0
+		}
+	case "lead0ff":
+		for i := range b {
+			b[i] = 0xFF
+		}
+		if s.total == 0 && k > 0 {
+			b[0] = 0
+		}
+	case "onebit":
+		for i := range b {
+			b[i] = 0
+		}
+		if s.total == 0 && k > 0 {
+			b[0] = 0x80
+		}
+	}
+	return b
 }
 
 func (s *scriptReader) Read(p []byte) (int, error) {
@@ -297,7 +331,7 @@ func (s *scriptReader) Read(p []byte) (int, error) {
 	if k > len(p) {
 		k = len(p)
 	}
-	b := s.fill.bytes(k)
+	b := s.produce(k)
 	copy(p, b)
 	s.total += k
 	err := errOfKind(st.Err)
